@@ -16,6 +16,7 @@ import (
 
 type c03Twin struct {
 	params rlwe.Parameters
+	prng   sampling.PRNG
 	xe, xs ring.Sampler
 	uni    ringqp.UniformSampler
 }
@@ -29,7 +30,7 @@ func newC03Twin(params rlwe.Parameters, prng sampling.PRNG) *c03Twin {
 	if err != nil {
 		panic(err)
 	}
-	return &c03Twin{params: params, xe: xe, xs: xs, uni: ringqp.NewUniformSampler(prng, *params.RingQP())}
+	return &c03Twin{params: params, prng: prng, xe: xe, xs: xs, uni: ringqp.NewUniformSampler(prng, *params.RingQP())}
 }
 
 // withPRNG mirrors Encryptor.WithPRNG: a copy that shares the error and secret samplers (and their
@@ -64,5 +65,17 @@ func (t *c03Twin) drawE(level int) ring.Poly {
 func (t *c03Twin) drawS(level int) ring.Poly {
 	p := t.params.RingQ().NewPoly()
 	t.xs.AtLevel(level).Read(p)
+	return p
+}
+
+// drawSH mirrors KeyGenerator.GenSecretKeyWithHammingWeight: a NEW ternary sampler with exactly hw
+// non-zero coefficients on the generator's PRNG, read once at the top level.
+func (t *c03Twin) drawSH(hw int) ring.Poly {
+	xs, err := ring.NewSampler(t.prng, t.params.RingQ(), ring.Ternary{H: hw}, false)
+	if err != nil {
+		panic(err)
+	}
+	p := t.params.RingQ().NewPoly()
+	xs.AtLevel(t.params.MaxLevel()).Read(p)
 	return p
 }
